@@ -69,6 +69,8 @@ def scenarios():
     add("name_overflow", {"outWrites": 0}, opts=["-n32767"])
     add("errfile_unwritable", {"errFileOpens": 0}, errfile="nodir/err.txt")
     add("syntax_and_errfile_unwritable", {"parseOk": 0, "errFileOpens": 0}, gdl=SYNTAX, errfile="nodir/err.txt")
+    add("semantic_error_w_names_error_ids", {"preCompileOk": 0}, gdl=SEMANTIC, opts=["-w3139", "-w3137", "-w3134", "-w3141", "-w3162", "-w139"])
+    add("syntax_error_w_names_error_ids", {"parseOk": 0}, gdl=SYNTAX, opts=["-w103", "-w102", "-w139", "-w1113"])
     add("semantic_error_dbg", {"preCompileOk": 0, "dbgFiles": 1, "dbgXml": 1}, gdl=SEMANTIC, opts=["-D"])
     return S
 
